@@ -141,12 +141,13 @@ func (c *context) SendMsg(m *protocol.Message) error {
 	bestEffort := c.bestEffort
 	tq := nilQ
 	cq := c.closeQ
+	sendExpire := c.sendExpire
 	s.Unlock()
 
 	if bestEffort {
 		tq = closedQ
-	} else if c.sendExpire > 0 {
-		tq = time.After(c.sendExpire)
+	} else if sendExpire > 0 {
+		tq = time.After(sendExpire)
 	}
 
 	m.Header = bt
